@@ -6,7 +6,7 @@ import tempfile
 import vlib
 
 TAGS = {0: "ORDER", 1: "OP", 2: "CB", 3: "BEFORE_SLEEP", 4: "BEFORE_HANDLE", 5: "IDLE", 6: "DISPATCH", 7: "BATCH",
-        8: "STATS", 9: "EPOLL", 10: "PANIC", 12: "SLOT", 13: "LIFECYCLE", 14: "WHEEL", 15: "DROP"}
+        8: "STATS", 9: "EPOLL", 10: "PANIC", 16: "REGOP", 12: "SLOT", 13: "LIFECYCLE", 14: "WHEEL", 15: "DROP"}
 OPS = {1: "insert", 2: "remove", 3: "disable", 4: "enable", 5: "update", 6: "setint", 7: "setdl", 8: "intoinner",
        9: "dropdisp", 10: "send", 11: "trysend"}
 
@@ -96,3 +96,43 @@ def pretty(line):
     if tag == 1 and len(ws) >= 3:
         return "%-28s OP %s h=%s -> %s" % (line, OPS.get(int(ws[1]), "?"), ws[2], ws[3] if len(ws) > 3 else "")
     return "%-28s %s" % (line[:60], name)
+
+
+def parse_scripts(text):
+    """scenario text -> ({h: [(ret, arg, [action words])]}, {h: [bs codes]}, {h: kind})"""
+    scr, bs, kinds = {}, {}, {}
+    cur = None
+    for line in text.split("\n"):
+        ws = line.split()
+        if not ws:
+            continue
+        if ws[0] == "S":
+            cur = (int(ws[2]), int(ws[3]), [])
+            scr.setdefault(int(ws[1]), []).append(cur)
+        elif ws[0] == "A" and cur is not None:
+            cur[2].append(ws[1:])
+            if ws[1] == "insert":
+                kinds[int(ws[2])] = ws[3]
+        elif ws[0] == "B":
+            bs.setdefault(int(ws[1]), []).append(int(ws[2]))
+        elif ws[0] == "C" and ws[1] == "insert":
+            kinds[int(ws[2])] = ws[3]
+    return scr, bs, kinds
+
+
+def segments(trace):
+    """split an implementation trace into callback segments: list of (cb_words, [following lines' words])
+    a segment ends at the next callback / idle / dispatch-end / batch / lifecycle-hook / panic line"""
+    segs, cur = [], None
+    for l in trace:
+        ws = l.split()
+        if not ws:
+            continue
+        if ws[0] == "2":
+            cur = (ws, [])
+            segs.append(cur)
+        elif ws[0] in ("5", "6", "7", "3", "4", "10", "0", "8", "9", "12", "13", "14"):
+            cur = None
+        elif cur is not None:
+            cur[1].append(ws)
+    return segs
